@@ -367,6 +367,10 @@ def run(ctx, report):
     from .c12 import state_copy_rule
     state_copy_rule(R14c, [ctx.mod('eval_abs')])
 
+    R15 = report.rule('C07.D15', 'every address looked up in the table of stored cells is simplified on every assignment that reaches the lookup (the table is keyed by simplified '
+                      'addresses: an address built as `ptr + 1` and not simplified again misses the cell stored there); shared with C06.D14', floor=3)
+    lookup_key_rule(R15, ea, methods)
+
     R12 = report.rule('C07.D12', 'cell addresses have one simplified form: base + 0, 0 + base and base + c + (-c) simplify to the base itself for sums of one, two and three terms '
                       '(memory cells are keyed by the simplified address; the overlap probes compute neighbours as address + constant)', floor=10)
     simpeval.emit_groups(R12, ctx, 'neutral', 'two spellings of one address')
@@ -711,7 +715,136 @@ def remainder_rule(ctx, R):
                     R.ok(inst, nontrivial=(n % 3 == 0), sample='%s: the uncovered bytes stay, each with its bits' % inst)
 
 
+
+def lookup_key_rule(R, ea, methods):
+    """Memory cells are kept under their *simplified* address (C06.D7 decides the writer).  Every address a method of eval_abs looks up in the cell table - `X in
+    self.pool.pool_mem`, `self.pool.pool_mem[X]`, or X handed to a method whose parameter is looked up that way (find_mem_by_addr) - must therefore be simplified on
+    every way it can reach the lookup: a local all of whose reaching assignments are expr_simp(..), a method of the class whose returns are, `.arg` of a stored cell,
+    another such local.  `ptr = ptr + 1` inside the piece loop of a wide read-back is the classic slip: the first piece is found, every later one is not."""
+    TABLE = ('self.pool.pool_mem',)
+
+    def lookup_params(fn):
+        """indices (in the call's argument list) of the parameters fn looks up in the cell table itself"""
+        ps = [a.arg for a in fn.args.args][1:]
+        out = []
+        for i, p in enumerate(ps):
+            for n in walk_no_nested(fn):
+                if isinstance(n, ast.Compare) and len(n.ops) == 1 and isinstance(n.ops[0], (ast.In, ast.NotIn)) and u(n.left) == p and u(n.comparators[0]) in TABLE:
+                    out.append(i)
+                    break
+        return out
+    lookup_methods = dict((name, lookup_params(fn)) for name, fn in methods.items())
+    lookup_methods = dict((k, v) for k, v in lookup_methods.items() if v)
+
+    def uses(fn, is_lookup_method):
+        """(node, key expression) for every lookup of the cell table in fn"""
+        own_params = set(a.arg for a in fn.args.args)
+        for n in walk_no_nested(fn):
+            key = None
+            if isinstance(n, ast.Compare) and len(n.ops) == 1 and isinstance(n.ops[0], (ast.In, ast.NotIn)) and u(n.comparators[0]) in TABLE:
+                key = n.left
+            elif isinstance(n, ast.Subscript) and u(n.value) in TABLE and isinstance(n.ctx, ast.Load):
+                key = n.slice
+            elif isinstance(n, ast.Call) and isinstance(n.func, ast.Attribute) and u(n.func.value) == 'self' and n.func.attr in lookup_methods:
+                for i in lookup_methods[n.func.attr]:
+                    if i < len(n.args):
+                        yield n, n.args[i]
+                continue
+            if key is not None:
+                if isinstance(key, ast.Name) and key.id in own_params and is_lookup_method:
+                    continue        # the parameter of a lookup method: its callers are checked
+                yield n, key
+
+    def simplified(fn, e, at, seen):
+        """is expression e, evaluated at node `at` of fn, a simplified address on every reaching definition?  (reason if not)"""
+        if isinstance(e, ast.Call) and u(e.func) == 'expr_simp':
+            return None
+        if isinstance(e, ast.Call) and isinstance(e.func, ast.Attribute) and u(e.func.value) == 'self' and e.func.attr in methods:
+            f_ = methods[e.func.attr]
+            ps = [a.arg for a in f_.args.args][1:]
+            rets = [r for r in walk_no_nested(f_) if isinstance(r, ast.Return) and r.value is not None]
+            for r in rets:
+                if isinstance(r.value, ast.Name) and r.value.id in ps:
+                    i = ps.index(r.value.id)
+                    if i < len(e.args):
+                        why = simplified(fn, e.args[i], at, seen)
+                        if why:
+                            return why
+                    continue
+                if isinstance(r.value, ast.Call) and u(r.value.func) == 'expr_simp':
+                    continue
+                return '%s returns %s' % (e.func.attr, u(r.value))
+            return None if rets else '%s returns nothing' % e.func.attr
+        if isinstance(e, ast.Attribute) and e.attr == 'arg' and isinstance(e.value, ast.Name):
+            # .arg of a stored cell (a loop variable over the pool, a value taken from the table)
+            for n in walk_no_nested(fn):
+                if isinstance(n, ast.For) and e.value.id in [x.id for x in ast.walk(n.target) if isinstance(x, ast.Name)] and 'self.pool' in u(n.iter):
+                    return None
+            return '%s is the address of a cell that is not taken from the pool' % u(e)
+        if isinstance(e, ast.Name):
+            if e.id in seen:
+                return None
+            seen = seen | {e.id}
+            defs = []
+            for n in walk_no_nested(fn):
+                if isinstance(n, ast.Assign):
+                    for t in n.targets:
+                        if isinstance(t, ast.Name) and t.id == e.id:
+                            defs.append((n, n.value))
+                if isinstance(n, ast.AugAssign) and isinstance(n.target, ast.Name) and n.target.id == e.id:
+                    defs.append((n, n))
+                if isinstance(n, (ast.For, ast.comprehension)) and isinstance(n.target, ast.Tuple):
+                    for k_, t in enumerate(n.target.elts):
+                        if isinstance(t, ast.Name) and t.id == e.id and isinstance(n.iter, ast.Name):
+                            # for i, x in L: the k-th component of what is appended to L
+                            for ap in walk_no_nested(fn):
+                                if isinstance(ap, ast.Call) and isinstance(ap.func, ast.Attribute) and ap.func.attr == 'append' and u(ap.func.value) == n.iter.id and ap.args \
+                                        and isinstance(ap.args[0], ast.Tuple) and k_ < len(ap.args[0].elts):
+                                    defs.append((ap, ap.args[0].elts[k_]))
+            if not defs:
+                if e.id in [a.arg for a in fn.args.args]:
+                    return 'the parameter %s of %s' % (e.id, fn.name)
+                return '%s has no assignment in %s' % (e.id, fn.name)
+            for dn, dv in defs:
+                if isinstance(dv, ast.AugAssign):
+                    why = '%s (`%s`) is not simplified again' % (e.id, u(dv))
+                else:
+                    why = simplified(fn, dv, dn, seen)
+                if why is None:
+                    continue
+                # an unsimplified assignment is harmless when the same block re-assigns the name, simplified, before the lookup can be reached
+                blk = parent(dn)
+                healed = False
+                for fld in ('body', 'orelse', 'finalbody'):
+                    lst = getattr(blk, fld, None)
+                    if isinstance(lst, list) and dn in lst:
+                        for later in lst[lst.index(dn) + 1:]:
+                            if any(x is at for x in ast.walk(later)):
+                                break
+                            if isinstance(later, ast.Assign) and any(isinstance(t, ast.Name) and t.id == e.id for t in later.targets) and simplified(fn, later.value, later, seen) is None:
+                                healed = True
+                                break
+                if not healed:
+                    return why if ' ' in why else '%s = %s' % (e.id, why)
+            return None
+        return '`%s` is not the result of expr_simp' % u(e)
+    n_sites = 0
+    for name, fn in sorted(methods.items()):
+        for node, key in uses(fn, name in lookup_methods):
+            n_sites += 1
+            inst = 'eval_abs.%s: %s' % (name, norm(node)[:70])
+            why = simplified(fn, key, node, frozenset())
+            if why is None:
+                R.ok(inst, sample='%s looks %s up in the cell table: simplified on every reaching assignment' % (name, u(key)), nontrivial=True)
+            else:
+                R.violation(inst, 'lookup-key:%s:%s' % (name, u(key)), '%s looks `%s` up in the table of stored cells, which is keyed by simplified addresses, but %s: a cell stored at that '
+                            'address is not found and the read-back takes the initial memory instead' % (name, u(key), why), where(ea, node),
+                            witness='movb $0x11,1(%ebx); movb $0x22,2(%ebx); movw 1(%ebx),%ax')
+    if n_sites < 3:
+        raise AnalysisError('eval_abs: only %d lookups of the cell table were found' % n_sites)
+
 MUTANTS = [
+    ('bigger-lookup-next-address-unsimplified', 'miasmx/expression/expression_eval_abstract.py', "                ptr = expr_simp(ExprOp('+', ptr, ExprInt(uint32(v.size//8))))", "                ptr = ExprOp('+', ptr, ExprInt(uint32(v.size//8)))", 'C07.D15'),
     ('substract-mems-tail-from-cell', 'miasmx/expression/expression_eval_abstract.py', "                ex = ExprOp('+', b.arg, ExprInt(uint32(b.size/8)))", "                ex = ExprOp('+', a.arg, ExprInt(uint32(b.size/8)))", 'C07.D13'),
     ('getreg-reeval', 'miasmx/expression/expression_eval_abstract.py', "        return self.pool[r]\n", "        return self.eval_expr(self.pool[r], {})\n", 'C07.D7'),
     ('overlap-addr-reeval', 'miasmx/expression/expression_eval_abstract.py', "            ex = expr_simp(e.arg - x)", "            ex = expr_simp(self.eval_expr(e.arg - x, eval_cache))", 'C07.D7'),
